@@ -61,7 +61,7 @@ def run(ctx):
     G.ORDERED_SETS = True
     ctx.rule = ("case = (protocol version, 1-6 bind columns with generated types (depth<=2), partition-key index list of size 0-3 in any "
                 "order, construction mode in {direct, from_message+pk_indexes, from_message+metadata lookup, decoded PREPARED body}, one "
-                "state per column in {value, None, UNSET_VALUE, missing}, positional/by-name forms incl. truncated, extra values, "
+                "state per column in {value, None, UNSET_VALUE, missing}, text/blob values sized at the 8/15/16-bit boundaries (p=0.04; key components <= 65535 bytes), positional/by-name forms incl. truncated, extra values, "
                 "extra dict keys, shuffled dict order); distinct by (types, pk, pv, mode, states, canonical values); non-trivial = "
                 "has a routing key or a non-value state")
     ctx.assume("null (None) partition-key components are not generated: Cassandra rejects them and the property does not say what the routing key is then")
@@ -76,6 +76,18 @@ def run(ctx):
         raise Inconclusive("spec/murmur.py self check failed: %r" % (bad[:2],))
 
     qid_counter = [0]
+    SIZED = ('text', 'varchar', 'ascii', 'blob')
+    KEY_SIZES = [127, 128, 255, 256, 32766, 32767, 32768, 32769, 40000, 65534, 65535]
+
+    def sized_value(k, n):
+        """canonical value of kind k whose serialization is exactly n bytes"""
+        if k == 'blob':
+            return rng.randbytes(n)
+        two = rng.randint(0, min(8, n // 2)) if k != 'ascii' else 0      # a few 2-byte characters
+        chars = [chr(rng.randint(32, 126)) for _ in range(16)]
+        body = ''.join(rng.choice(chars) for _ in range(256))
+        txt = (body * ((n - 2 * two) // 256 + 1))[:n - 2 * two] + '\xe9' * two
+        return txt
 
     def build_metadata(ks, table, names, pk, extra_pk_col=False, unknown=None):
         md = MD.Metadata()
@@ -251,9 +263,15 @@ def run(ctx):
             return
         ctx.count("routing_keys_equal")
         ctx.count("routing_keys_composite" if len(eff_pk) > 1 else "routing_keys_single")
+        if len(eff_pk) > 1:
+            big = max(len(p) for p in parts)
+            if big >= 32768:
+                ctx.count("routing_keys_composite_with_component_of_32768_to_65535_bytes")
+            elif big >= 256:
+                ctx.count("routing_keys_composite_with_component_of_256_to_32767_bytes")
         if len(eff_pk) > 1 and eff_pk != sorted(eff_pk):
             ctx.count("routing_keys_composite_non_ascending_pk_order")
-        if want:
+        if want and (len(want) <= 4096 or rng.random() < 0.2):      # the pure-Python hash of a 64 KiB key costs ~0.1 s; bytes are already equal
             tok = MD.Murmur3Token.from_key(got).value
             wtok = MM.token(want)
             if tok != wtok:
@@ -289,9 +307,13 @@ def run(ctx):
         # canonical values and their reference encodings
         canon, exp = [], []
         undefined = False
-        for t in types:
+        for ci, t in enumerate(types):
             for _try in range(10):
-                v = G.gen_value(rng, t, pv)
+                if t[0] in SIZED and rng.random() < 0.04:
+                    # serialized sizes around the 8/15/16-bit boundaries; a partition-key component is at most 65535 bytes in Cassandra
+                    v = sized_value(t[0], rng.choice(KEY_SIZES if ci in pk else KEY_SIZES + [65536, 70000]))
+                else:
+                    v = G.gen_value(rng, t, pv)
                 try:
                     e = S.enc(t, v, pv)
                 except S.Undefined:
@@ -437,4 +459,6 @@ def run(ctx):
                           "routing_keys_composite_non_ascending_pk_order": 300, "tokens_equal": 1500,
                           "positional_equals_named": 1500, "rejected:unset-partition-key-component": 50,
                           "rejected:extra-positional-value": 100, "rejected:unset-below-v4": 100, "rejected:missing-name-below-v4": 100,
-                          "prepared_bodies_decoded": 500, "routing_key_absent_as_expected": 300, "rebinds": 100}
+                          "prepared_bodies_decoded": 500, "routing_key_absent_as_expected": 300, "rebinds": 100,
+                          "routing_keys_composite_with_component_of_32768_to_65535_bytes": 20,
+                          "routing_keys_composite_with_component_of_256_to_32767_bytes": 10}
